@@ -577,5 +577,45 @@ func replayOnRealCode(pid, obl string, r *SolveResult, replayPath, repo string) 
 	if replayHook != nil {
 		return replayHook(pid, obl, r, replayPath, repo)
 	}
-	return false
+	if r == nil || r.Obl == nil || r.Status != "sat" || r.File == "" {
+		return false
+	}
+	isStr := r.Obl.Func == "zconst.NotIssueCode"
+	if coercerTarget(r.Obl.Func) == nil && !isStr {
+		return false
+	}
+	data, err := os.ReadFile(r.File)
+	if err != nil {
+		return false
+	}
+	var ok bool
+	var rep map[string]any
+	if isStr {
+		ok, rep = replayStringFunc(r.Obl, string(data), repo, "zconst", "zconst", "NotIssueCode", "e")
+	} else {
+		ok, rep = replayCoercer(r.Obl, string(data), repo)
+	}
+	if rep == nil || replayPath == "" {
+		return ok
+	}
+	// extend the replay file
+	var cur map[string]any
+	if b, err := os.ReadFile(replayPath); err == nil {
+		json.Unmarshal(b, &cur)
+	}
+	if cur == nil {
+		cur = map[string]any{}
+	}
+	for k, x := range rep {
+		cur[k] = x
+	}
+	cur["replayed"] = ok
+	if ok {
+		cur["note"] = "the solver's counterexample was replayed on the real code: calling the function on `input` returned `observed`, and asserting that outcome into the failed query keeps it satisfiable (the clause is violated by the real code on this input). Re-run: bin/replay <this file>"
+	} else {
+		cur["note"] = "failed proof obligation; the counterexample could not be confirmed on the real code (see replay fields)"
+	}
+	b, _ := json.MarshalIndent(cur, "", " ")
+	os.WriteFile(replayPath, b, 0o644)
+	return ok
 }
